@@ -50,6 +50,15 @@ type Case struct {
 	Bursts   []Burst  `json:"bursts"`
 	Channel  bool     `json:"channel"` // consume through ChannelEvents
 	CheckHas bool     `json:"check_has_pending"`
+	// After everything above was delivered: Suspend, post SuspPosts events while
+	// suspended and consume them, Resume, then a second input stream.
+	Suspend   bool  `json:"suspend"`
+	SuspPosts int   `json:"posts_while_suspended"`
+	Toks2     []Tok `json:"toks_after_resume"`
+	// The tty's Read returns (0, nil) every few ms while idle (a polling tty);
+	// a last, lone ESC keypress must still come out when its timeout expires.
+	PollingTty bool `json:"polling_tty"`
+	FinalEsc   bool `json:"final_lone_esc"`
 }
 
 func genCase(t *rapid.T) Case {
@@ -75,6 +84,16 @@ func genCase(t *rapid.T) Case {
 	}
 	c.Channel = rapid.IntRange(0, 3).Draw(t, "channel") == 0
 	c.CheckHas = rapid.Bool().Draw(t, "has")
+	if rapid.IntRange(0, 2).Draw(t, "suspend") == 0 {
+		c.Suspend = true
+		c.SuspPosts = rapid.IntRange(0, 6).Draw(t, "suspposts")
+		n2 := rapid.IntRange(1, 12).Draw(t, "ntok2")
+		for i := 0; i < n2; i++ {
+			c.Toks2 = append(c.Toks2, Tok{Kind: rapid.SampledFrom([]string{"rune", "rune", "mouse", "key", "focus-in"}).Draw(t, "tok2")})
+		}
+	}
+	c.PollingTty = rapid.IntRange(0, 3).Draw(t, "pollingtty") == 0
+	c.FinalEsc = rapid.Bool().Draw(t, "finalesc")
 	return c
 }
 
@@ -126,6 +145,9 @@ func prop(c Case) (err error) {
 	ti := *base
 	ti.PadChar = ""
 	tty := faketty.New(100, 100)
+	if c.PollingTty {
+		tty.IdleZeroRead = 3 * time.Millisecond
+	}
 	s, e := tcell.NewTerminfoScreenFromTtyTerminfo(tty, &ti)
 	if e != nil {
 		return fmt.Errorf("harness: %v", e)
@@ -402,6 +424,123 @@ func prop(c Case) (err error) {
 			pbt.Class("posting:eventq-full-observed")
 		}
 	}
+	// ---- Suspend / Resume: neither is quit or Fini. Everything so far was
+	// delivered, so nothing is in flight that a hand-over of the terminal could
+	// legitimately discard.
+	if c.Suspend {
+		chClosed := false
+		nextOpen := func(d time.Duration) (tcell.Event, bool) {
+			if c.Channel {
+				select {
+				case ev, ok := <-chanCh:
+					if !ok {
+						chClosed = true
+						return nil, false
+					}
+					return ev, true
+				case <-time.After(d):
+					return nil, false
+				}
+			}
+			return next(d)
+		}
+		guarded := func(what string, f func() error) error {
+			ch := make(chan error, 1)
+			go func() { ch <- f() }()
+			select {
+			case e := <-ch:
+				if e != nil {
+					return fmt.Errorf("%s failed: %v", what, e)
+				}
+				return nil
+			case <-time.After(guardTime):
+				return fmt.Errorf("%s did not return within %v", what, guardTime)
+			}
+		}
+		if err := guarded("Suspend", s.Suspend); err != nil {
+			return err
+		}
+		var acc []int
+		for i := 0; i < c.SuspPosts; i++ {
+			if s.PostEvent(tcell.NewEventInterrupt(payload{-1, i})) == nil {
+				acc = append(acc, i)
+			}
+		}
+		var got []int
+		for len(got) < len(acc) {
+			ev, ok := nextOpen(1500 * time.Millisecond)
+			if hasPendingViolation != nil {
+				return hasPendingViolation
+			}
+			if chClosed {
+				return fmt.Errorf("ChannelEvents closed its channel at Suspend although neither quit nor Fini happened")
+			}
+			if !ok {
+				break
+			}
+			if ev == nil {
+				return fmt.Errorf("while suspended: PostEvent returned nil for %d events and HasPendingEvent was true, but PollEvent returned nil", len(acc))
+			}
+			if e, ok := ev.(*tcell.EventInterrupt); ok {
+				if p, ok := e.Data().(payload); ok && p.G == -1 {
+					got = append(got, p.I)
+				}
+			}
+		}
+		if fmt.Sprint(got) != fmt.Sprint(acc) {
+			return fmt.Errorf("while suspended: events %v were accepted by PostEvent, delivered %v", acc, got)
+		}
+		if err := guarded("Resume", s.Resume); err != nil {
+			return err
+		}
+		tok2, want2 := build(c.Toks2)
+		for _, tb := range tok2 {
+			tty.Feed(tb)
+		}
+		before := len(gotInput)
+		idle := 0
+		for len(gotInput)-before < len(want2) && idle < 3 {
+			ev, ok := nextOpen(1500 * time.Millisecond)
+			if hasPendingViolation != nil {
+				return hasPendingViolation
+			}
+			if chClosed {
+				return fmt.Errorf("ChannelEvents closed its channel although neither quit nor Fini happened (after Suspend and Resume)")
+			}
+			if !ok {
+				idle++
+				continue
+			}
+			idle = 0
+			record(ev)
+		}
+		if problem != nil {
+			return problem
+		}
+		if got2 := gotInput[before:]; !inref.Equal(got2, want2) {
+			return fmt.Errorf("after Suspend and Resume: %d input tokens typed, %d events delivered: delivered %s, expected %s", len(want2), len(got2), inref.Show(got2), inref.Show(want2))
+		}
+	}
+	if c.FinalEsc {
+		// the ESC key on its own: held back for the 50 ms escape timeout, then delivered
+		tty.Feed([]byte{0x1b})
+		before := len(gotInput)
+		for i := 0; i < 3 && len(gotInput) == before; i++ {
+			if ev, ok := next(1500 * time.Millisecond); ok {
+				record(ev)
+			}
+			if hasPendingViolation != nil {
+				return hasPendingViolation
+			}
+		}
+		if problem != nil {
+			return problem
+		}
+		want := []inref.Ev{{Kind: "key", Key: int(tcell.KeyEsc)}}
+		if got := gotInput[before:]; !inref.Equal(got, want) {
+			return fmt.Errorf("a lone ESC keypress (polling tty: %v) was typed and polled for 4.5 s: delivered %s, expected %s", c.PollingTty, inref.Show(got), inref.Show(want))
+		}
+	}
 	// ---- shutdown; ChannelEvents closes its channel
 	done := make(chan struct{})
 	go func() { s.Fini(); close(done) }()
@@ -477,6 +616,15 @@ func classes(c Case) []string {
 	if c.Resizes > 0 {
 		out = append(out, "resize-notifications")
 	}
+	if c.Suspend {
+		out = append(out, "suspend-resume-then-more-input")
+	}
+	if c.PollingTty {
+		out = append(out, "polling-tty")
+	}
+	if c.FinalEsc {
+		out = append(out, "final-lone-esc")
+	}
 	if nonTrivial(c) {
 		out = append(out, "backpressure-with-producers")
 	}
@@ -486,7 +634,7 @@ func classes(c Case) []string {
 func TestProp(t *testing.T) {
 	defer pbt.Recover(t)
 	_ = flag.Set("rapid.shrinktime", "40s")
-	pbt.Describe("rapid schedule programs on a real terminfo screen over a fake tty with real goroutines: an input stream of 0-120 sequence-numbered tokens (CJK runes numbered by code point, SGR mouse reports numbered by coordinates, paste brackets, focus reports, a function key) delivered in reads that end at token boundaries; 0-3 posting goroutines (PostEvent with its result recorded, or PostEventWait) with yields; resize notifications; a consumer that polls in bursts and pauses (long enough for both internal queues to fill) or consumes through ChannelEvents; optional HasPendingEvent checks. Oracle: the input-derived events delivered equal the decoded input stream exactly (no loss, duplication, reordering); per poster the delivered payloads equal the accepted ones in order and rejected (ErrEventQFull) ones never appear; a true HasPendingEvent is followed by a PollEvent that returns within 5 s; every delivered event is non-nil, When() does not panic and lies between case start and delivery; ChannelEvents closes its channel after Fini. Non-trivial = at least 25 input tokens (more than both queues hold), a poster and a polling pause; distinct = hash of the case.",
+	pbt.Describe("rapid schedule programs on a real terminfo screen over a fake tty with real goroutines: an input stream of 0-120 sequence-numbered tokens (CJK runes numbered by code point, SGR mouse reports numbered by coordinates, paste brackets, focus reports, a function key) delivered in reads that end at token boundaries; 0-3 posting goroutines (PostEvent with its result recorded, or PostEventWait) with yields; resize notifications; a consumer that polls in bursts and pauses (long enough for both internal queues to fill) or consumes through ChannelEvents; optional HasPendingEvent checks. Oracle: the input-derived events delivered equal the decoded input stream exactly (no loss, duplication, reordering); per poster the delivered payloads equal the accepted ones in order and rejected (ErrEventQFull) ones never appear; a true HasPendingEvent is followed by a PollEvent that returns within 5 s; every delivered event is non-nil, When() does not panic and lies between case start and delivery; ChannelEvents closes its channel after Fini and not at Suspend; in a third of the cases, once everything was delivered: Suspend, events posted while suspended are delivered, Resume, and a second input stream is delivered exactly. A quarter of the cases use a polling tty (Read returns (0, nil) every 3 ms while idle); half end with a lone ESC keypress that must come out as one Esc key once the 50 ms timeout passes. Non-trivial = at least 25 input tokens (more than both queues hold), a poster and a polling pause; distinct = hash of the case.",
 		"reads end at token boundaries: a sequence split across reads under back-pressure depends on the 50 ms escape timer (timing, not asserted here; C02 covers chunking without timeouts)",
 		"EventResize may legitimately be dropped when the queue is full and is ignored by the oracle",
 		"schedules are those the Go scheduler produces; loss is declared only after producers finished, the tty was fully read and PollEvent stayed idle for three 1.5 s periods")
